@@ -79,7 +79,9 @@ func Walk(ctx context.Context, fileSystem fs.FS, prefix, delimiter, marker strin
 		if path == "." {
 			return nil
 		}
-		if contains(d.Name(), skipdirs) {
+		// only the internal directories at the top level are skipped, a
+		// user key may contain a segment with the same name
+		if d.IsDir() && contains(path, skipdirs) {
 			return fs.SkipDir
 		}
 
